@@ -1636,20 +1636,24 @@ class PyCdlib:
                                             current_extent - part_start)
 
                 if self.isohybrid_mbr is not None:
-                    if enc.entry is self.eltorito_boot_catalog.initial_entry and enc.platform_id != 0xef:
+                    if enc.entry is self.eltorito_boot_catalog.initial_entry:
                         # The hybrid MBR boots the image of the Initial/Default
                         # Entry (the one add_isohybrid() checked).
                         self.isohybrid_mbr.update_rba(current_extent)
 
                     if enc.platform_id == 0xef:
+                        # EFI images only matter to a hybrid that was made
+                        # with EFI (and Mac) support.
                         if num_seen_efi == 0:
-                            self.isohybrid_mbr.update_efi(current_extent,
-                                                          enc.entry.sector_count,
-                                                          self.pvd.space_size * self.logical_block_size)
+                            if self.isohybrid_mbr.efi:
+                                self.isohybrid_mbr.update_efi(current_extent,
+                                                              enc.entry.sector_count,
+                                                              self.pvd.space_size * self.logical_block_size)
                         elif num_seen_efi == 1:
-                            self.isohybrid_mbr.update_mac(current_extent,
-                                                          enc.entry.sector_count)
-                        else:
+                            if self.isohybrid_mbr.mac:
+                                self.isohybrid_mbr.update_mac(current_extent,
+                                                              enc.entry.sector_count)
+                        elif self.isohybrid_mbr.efi:
                             raise pycdlibexception.PyCdlibInternalError('Only expected two EFI sections')
                         num_seen_efi += 1
 
